@@ -232,7 +232,12 @@ def random_problem(rng, max_n=5, nbest_max=1, mixed_heads=False, multi=False, be
                 p.un[x].insert(rng.randint(0, len(p.un[x]) - 1), x)
     if beam and rng.random() < 0.7:
         p.use_beta = True
-        p.beta = rng.choice([0.5, 0.1, 0.01, 0.3])
+        p.beta = rng.choice([0.5, 0.1, 0.01, 0.3, 1e-5, 1e-30])
+    if beam and rng.random() < 0.3:
+        # a word all of whose tags are very improbable: exp() underflows in float32
+        t = rng.randrange(p.n)
+        shift = rng.choice([6000, 7000, 9000, 30000])
+        p.tags[t] = [k - shift for k in p.tags[t]]
     return p
 
 
@@ -251,6 +256,12 @@ def admitted_tags(p, margin=False):
         best = row[order[0]] / SCALE
         sure, maybe = set(), set()
         for rank, i in enumerate(top):
+            if row[i] / SCALE < -100 or best + math.log(p.beta) < -100:
+                # float32 exp() underflows around -104: outside the model (like rounding). Such a tag
+                # counts as borderline; it may be used only if the float32 test lets it through
+                if expf(numpy.float32(row[i] / SCALE)) > numpy.float32(expf(numpy.float32(best)) * numpy.float32(p.beta)):
+                    maybe.add(i)
+                continue
             ratio = math.exp(row[i] / SCALE - best)
             if ratio > p.beta * 1.001:
                 sure.add(i)
